@@ -12,6 +12,7 @@ EXPLANATION = (
     "(5) the append offset derives from the end of valid data. "
     "It does not decide that replay reconstructs the right state."
     " Added in the build round: C01.7 log scanners reset their pending buffer at BeginTx; C01.8 write-then-rename — every rename in Wal::rewrite_as_snapshot is dominated by the Ok arm of a sync of the completely written replacement log."
+    " C01.10 (shared with C15.5): every index-root update in commit is followed by IndexCatalog::flush before CommitTx — the catalog page is the only durable copy of the roots, so an acknowledged indexed write is otherwise unreachable through the index after a crash."
 )
 ASSUMPTIONS = [
     "a must-sync call site is one whose every resolved target syncs Pager.file on all of its success paths",
@@ -22,6 +23,9 @@ SEEK = "std::io::Seek::seek"
 
 
 def run(ctx):
+    from .c15 import root_flush_rule
+    ctx.rule("C01.10", "index roots moved by a commit are on the catalog page before the CommitTx record (the catalog page is their only durable copy; shared with C15.5)")
+    root_flush_rule(ctx, "C01.10")
     F = ctx.facts
     from .c02 import scanner_rule
     ctx.rule("C01.7", "log scanners discard the records of an unfinished transaction when the next BeginTx arrives (else a crash inside a commit poisons the next acknowledged commit)")
